@@ -1244,14 +1244,10 @@ impl TDigestView<'_> {
                     }
                     right_weight = 0.5;
                 }
-                let w1 = weight - weight_so_far - left_weight;
-                let w2 = weight_so_far + dw - weight - right_weight;
-                return Some(weighted_average(
-                    self.centroids[i].mean,
-                    w2,
-                    self.centroids[i + 1].mean,
-                    w1,
-                ));
+                // the share of centroid i + 1: a quotient with a denominator that does not depend on
+                // the rank, so that the result is monotone in the rank
+                let t = (weight - weight_so_far - left_weight) / (dw - left_weight - right_weight);
+                return Some(lerp(self.centroids[i].mean, self.centroids[i + 1].mean, t));
             }
             weight_so_far += dw;
         }
@@ -1397,13 +1393,7 @@ mod scale_function {
 }
 
 fn weighted_average(x1: f64, w1: f64, x2: f64, w2: f64) -> f64 {
-    let average = (x1 * w1 + x2 * w2) / (w1 + w2);
-    if average.is_finite() {
-        return average;
-    }
-    // a product or their sum overflowed (finite values near f64::MAX): scale the weights first
-    let total = w1 + w2;
-    (x1 * (w1 / total) + x2 * (w2 / total)).clamp(x1.min(x2), x1.max(x2))
+    lerp(x1, x2, w2 / (w1 + w2))
 }
 
 /// `(a - b) / (c - d)` for finite operands with `0 <= a - b <= c - d`: the difference of two
@@ -1429,12 +1419,24 @@ fn scaled_difference_ratio(weight: f64, value: f64, lower: f64, upper: f64) -> f
     }
 }
 
-/// `from + t * (to - from)` for `0 <= t <= 1` and finite ends; `to - from` may overflow.
+/// Linear interpolation `from + t * (to - from)`, `0 <= t <= 1`, between finite ends.
+///
+/// The result never leaves the interval between the two ends (rounding alone made
+/// `(x * w1 + x * w2) / (w1 + w2)` differ from `x`), it is exact at both ends and monotone in `t`:
+/// the end of smaller magnitude is the anchor, so a huge end does not cancel the other one.
+/// `to - from` may overflow for ends of opposite sign near `f64::MAX`.
 fn lerp(from: f64, to: f64, t: f64) -> f64 {
     let span = to - from;
-    if span.is_finite() {
+    let value = if !span.is_finite() {
+        from * (1. - t) + to * t
+    } else if from.abs() <= to.abs() {
         from + t * span
     } else {
-        from * (1. - t) + to * t
+        to - (1. - t) * span
+    };
+    if from <= to {
+        value.clamp(from, to)
+    } else {
+        value.clamp(to, from)
     }
 }
